@@ -115,6 +115,21 @@ def finalize_cfg(cfg):
     # files opened for writing buffer in user space as CPython does (replay files recorded earlier lack the flag)
     cfg.setdefault('fs_ubuf', True)
     conf = cfg.get('conf') or {}
+    sc = cfg.get('sched') or {}
+    if sc.get('guide'):
+        # the guided late-acknowledgement schedule owns the partitions of its run and needs five voters that stay
+        # up; a spec that changed the cluster or enabled kills after the draw runs unguided
+        if cfg.get('n_voters') != 5 or cfg.get('n_spare') or sc.get('w_kill') or sc.get('w_killop') or cfg.get('deposed_scenario'):
+            sc['guide'] = None
+        else:
+            for k in ('w_part', 'w_heal', 'w_hold', 'w_rst', 'w_stall'):
+                sc[k] = 0.0
+            conf['connectionTimeout'] = max(conf.get('connectionTimeout', 3.5), 3.5)
+            # five voters ticked at random need some spread of the election time-outs to get a first leader at all
+            conf['raftMaxTimeout'] = max(conf['raftMaxTimeout'], conf['raftMinTimeout'] + 0.5)
+            # ... and a network whose latency (20 pipes served one delivery at a time) stays below them
+            sc['w_dlv'] = max(sc.get('w_dlv', 5.0), 12.0)
+            sc['dts'] = [d for d in sc.get('dts', [0.0]) if d <= 0.02]
     B = conf.get('appendEntriesBatchSizeBytes', 1 << 16)
     if 'cpu_cost' in cfg:
         if B < 1024 or conf.get('logCompactionBatchSize', 1 << 16) < 64:
@@ -148,7 +163,166 @@ def apply_churn(rng, cfg):
     return cfg
 
 
+def apply_guide_stale_ack(rng, cfg):
+    """Guided schedule "late acknowledgement" (Scheduler._guide_stale_ack) on top of a churn configuration: five
+    voters, election time-outs well below the connection time-out, so that one connection can stay silent across
+    two elections without being dropped by its reader."""
+    conf = cfg['conf']
+    cfg['n_voters'] = 5
+    tmin = rng.choice([0.35, 0.4])
+    conf['raftMinTimeout'] = tmin
+    conf['raftMaxTimeout'] = tmin + rng.choice([0.05, 0.2, 0.5])
+    conf['connectionTimeout'] = rng.choice([3.5, 6.0, 10.0])
+    conf['connectionRetryTime'] = rng.choice([0, 0.5, 1.0])
+    conf['leaderFallbackTimeout'] = 30.0
+    cfg['sched']['guide'] = dict(kind='stale_ack', burst=rng.choice([2, 3, 5]), t_start=rng.choice([1.0, 2.0, 4.0]),
+                                 p4=rng.choice(['one_follower', 'one_follower', 'heal']),
+                                 variant=rng.choice(['in_flight', 'in_flight', 'delivered']))
+    return cfg
+
+
 class Scheduler(object):
+    def _guide_stale_ack(self, dt):
+        """Guided schedule: an acknowledgement that outlives the leadership it was sent in.
+
+          p1  leader L and one follower B are cut off together; the other three elect C (newer term)
+          p1b L gets a burst of commands; B stores them; the instant B's acknowledgement is in flight ...
+          p2  ... B is cut off alone (its acknowledgement stays in the network, the connection stays up), L meets C,
+              steps down and drops its uncommitted tail
+          p3  C is cut off, the other two are slow, L is elected again and appends its no-op
+          p4  B comes back together with one more follower: the old acknowledgement arrives in the new leadership
+
+        Every step waits for the state it needs (with a time-out, after which the guide gives up and ordinary churn
+        takes over); ticks, deliveries and submissions in between are drawn as in any other run."""
+        w, rng, g = self.w, self.rng, self.guide
+        cf = self.s['guide']
+        ph = self.guide_phase
+        hosts = w.hosts
+        nv = [h.idx for h in hosts if not h.readonly and h.member]
+
+        def st(i):
+            n = hosts[i].node
+            return None if n is None else priv(n, 'SyncObj', 'raftState')
+
+        def last(i):
+            return priv(hosts[i].node, 'SyncObj', 'raftLog')[-1][1]
+
+        def give_up(why):
+            self.guide_phase = 'done'
+            w.probe('guide_gave_up_' + why)
+            for i in g.get('slow', []):
+                self.stalled.pop(i, None)
+            self.held = []
+            return [dt, 'heal']
+
+        if any(hosts[i].node is None for i in nv) or len(nv) < 5:
+            return give_up('node_down')
+        if ph == 'init':
+            if w.T < cf['t_start']:
+                return None
+            L = self.leader_idx()
+            if L is None or hosts[L].node.raftCommitIndex < 2 or w.groups is not None:
+                if w.T > cf['t_start'] + 20:
+                    return give_up('no_leader')
+                return None
+            others = [i for i in nv if i != L]
+            conn = [i for i in others if len(priv(hosts[i].node, 'SyncObj', 'connectedNodes')) >= 4]
+            if len(conn) < 4:
+                return None
+            B = rng.choice(others)
+            g.update(L=L, B=B, rest=[i for i in others if i != B], term=hosts[L].node.raftCurrentTerm, t0=w.T)
+            grp = [1] * len(hosts)
+            grp[L] = grp[B] = 0
+            self.guide_phase = 'p1'
+            w.probe('guide_p1')
+            return [dt, 'part', grp]
+        L, B, rest = g['L'], g['B'], g['rest']
+        if ph == 'p1':
+            if st(L) != LEADER or hosts[L].node.raftCurrentTerm != g['term']:
+                return give_up('p1_leader_lost')
+            C = [i for i in rest if st(i) == LEADER and hosts[i].node.raftCurrentTerm > g['term']]
+            if not C:
+                if w.T - g['t0'] > 8 * self.cfg['conf']['raftMaxTimeout']:
+                    return give_up('p1_no_election')
+                return None
+            g['C'] = C[0]
+            g['x0'] = last(L)
+            for _ in range(cf['burst']):
+                tag = self.next_tag
+                self.next_tag += 1
+                self.nsubs += 1
+                self.queue.append([0.0, 'sub', L, 'append', tag])
+            self.guide_phase = 'p1b'
+            g['t1'] = w.T
+            return None
+        if ph == 'p1b':
+            if st(L) != LEADER:
+                return give_up('p1b_leader_lost')
+            if last(L) >= g['x0'] + cf['burst'] and last(B) == last(L):
+                # B holds the burst; is its acknowledgement on the wire right now?  (variant 'delivered': has it
+                # arrived?  Then the state to outlive the leadership is the leader's own record of it.)
+                if cf.get('variant') == 'delivered':
+                    mi = priv(hosts[L].node, 'SyncObj', 'raftMatchIndex')
+                    bnode = [nd for nd in mi if str(nd.id) == hosts[B].addr]
+                    if bnode and mi[bnode[0]] >= last(B):
+                        g['X'] = last(B)
+                        grp = [0] * len(hosts)
+                        grp[B] = 2
+                        self.guide_phase = 'p2'
+                        g['t2'] = w.T
+                        w.probe('guide_p2_ack_delivered')
+                        return [0.0, 'part', grp]
+                    return None
+                for pid, p in w.net.pipes.items():
+                    if p.writer.host == B and p.reader.host == L and p.inflight and not p.dead:
+                        g['X'] = last(B)
+                        grp = [0] * len(hosts)
+                        grp[B] = 2
+                        self.guide_phase = 'p2'
+                        g['t2'] = w.T
+                        w.probe('guide_p2_ack_in_flight')
+                        return [0.0, 'part', grp]
+            if w.T - g['t1'] > 3.0:
+                return give_up('p1b_no_ack_in_flight')
+            return None
+        C = g['C']
+        if ph == 'p2':
+            if st(L) == 0 and hosts[L].node.raftCurrentTerm > g['term'] and last(L) < g['X']:
+                # L follows the newer leader and has dropped its tail: cut C off, keep the other two slow
+                grp = [0] * len(hosts)
+                grp[B] = 2
+                grp[C] = 1
+                g['slow'] = [i for i in rest if i != C]
+                for i in g['slow']:
+                    self.stalled[i] = w.T + 30.0
+                self.guide_phase = 'p3'
+                g['t3'] = w.T
+                w.probe('guide_p3_tail_dropped')
+                return [dt, 'part', grp]
+            if w.T - g['t2'] > 2.0:
+                return give_up('p2_not_deposed')
+            return None
+        if ph == 'p3':
+            s_l = st(L)
+            if s_l in (1, LEADER) or w.T - g['t3'] > 1.2 * self.cfg['conf']['raftMaxTimeout'] / 0.9 + 0.5:
+                for i in g.get('slow', []):
+                    self.stalled.pop(i, None)
+            if s_l == LEADER:
+                n = last(L)
+                w.probe('guide_p4_reelected')
+                if g['X'] >= n:
+                    w.probe('guide_p4_stale_ack_covers_noop')
+                self.guide_phase = 'done'
+                grp = [0] * len(hosts)
+                grp[C] = 1
+                if cf['p4'] == 'one_follower':
+                    grp[rng.choice(g['slow'])] = 3
+                return [0.0, 'part', grp]
+            if any(st(i) == LEADER and i != C for i in rest) or w.T - g['t3'] > 6.0:
+                return give_up('p3_other_leader')
+            return None
+        return None
+
     def __init__(self, world, rng, cfg):
         self.w = world
         self.rng = rng
@@ -164,6 +338,8 @@ class Scheduler(object):
         self.queue = []            # events decided already (bursts)
         self.churn_next = 0.0
         self.churn_seen = {}
+        self.guide_phase = 'init'
+        self.guide = {}
 
     # hooks for property-specific schedulers --------------------------------------
     def extra_choices(self, items):
@@ -237,7 +413,11 @@ class Scheduler(object):
         if self.queue:
             return self.queue.pop(0)
         live = net.live_pipes()
-        if s.get('churn') and self.drain == 0:
+        if s.get('guide') and self.drain == 0 and self.guide_phase != 'done':
+            ev = self._guide_stale_ack(dt)
+            if ev is not None:
+                return ev
+        if s.get('churn') and self.drain == 0 and (not s.get('guide') or self.guide_phase == 'done'):
             ev = self._churn_event(dt, live)
             if ev is not None:
                 return ev
